@@ -1035,6 +1035,8 @@ def synchronized(name):
             if arbiter is not None:
                 if arbiter._restarting:
                     raise ConflictError("arbiter is restarting...")
+                if getattr(arbiter, '_stopping', False):
+                    raise ConflictError("arbiter is stopping...")
                 if arbiter._exclusive_running_command is not None:
                     raise ConflictError("arbiter is already running %s command"
                                         % arbiter._exclusive_running_command)
